@@ -280,6 +280,45 @@ def clause_eq_length(facts, rep, files=('sonic/dom/', 'internal/arch/simd_skip.h
     return n
 
 
+def clause_mask_arith(facts, rep, files=('arch/avx2/base.h', 'arch/sse/base.h', 'x86_common/', 'arch/avx2/', 'arch/sse/')):
+    """no signed overflow on a comparison mask: `_mm256_movemask_epi8` returns an int that takes every 32-bit pattern
+    (0x7FFFFFFF when only the last byte of a block differs, 0x80000000 when only that byte is equal), so `+ 1`, `- 1`,
+    unary minus or a multiplication applied to it at type int overflows for a valid input - undefined behaviour, a
+    run-time error in a -fsanitize=undefined build.  The arithmetic has to be done on the mask converted to unsigned."""
+    n = 0
+    seen = set()
+    for f in facts.functions:
+        if not any(x in f.file for x in files):
+            continue
+        for bid, i, s_, e in f.walk():
+            if e.get('k') != 'bin' or e['op'] not in ('+', '-', '*', '<<'):
+                continue
+            t = (e.get('t') or '').replace('const ', '')
+            if t not in ('int', 'long', 'short'):
+                continue
+
+            def is_mm(x):
+                x_ = strip(x)
+                while x_ is not None and x_.get('k') == 'cast' and (x_.get('t') or '').replace('const ', '') in ('int',):
+                    x_ = strip(x_['e'])
+                return x_ is not None and x_.get('k') == 'call' and (x_.get('cname') or '') in ('_mm256_movemask_epi8',)
+            if not (is_mm(e['l']) or is_mm(e['r'])):
+                continue
+            key = (f.qn.split('<')[0], locline(e['loc']))
+            if key in seen:
+                continue
+            seen.add(key)
+            rep.fn(f)
+            other = e['r'] if is_mm(e['l']) else e['l']
+            c = cval(other)
+            # the mask ranges over all of int: x + c overflows for c != 0, x - c likewise, x * c for |c| > 1, x << c for c > 0
+            ok = (c == 0) if e['op'] in ('+', '-', '<<') else (c in (0, 1))
+            n += 1
+            rep.check(ok, 'E5.mask-arith', f.qn, show(e), locline(e['loc']),
+                      'signed %s on a value that takes every int pattern: overflows (undefined behaviour) for a block in which only the last byte differs / matches' % e['op'], facts.config)
+    return n
+
+
 def clause_c(facts, rep):
     n = 0
     seen = set()
@@ -464,6 +503,7 @@ def run(rep, tier):
     clause_b(facts, rep, tier)
     n = clause_c(facts, rep)
     clause_eq_length(facts, rep)
+    clause_mask_arith(facts, rep)
     clause_e(facts, rep, ('::avx2::',))
     rep.require(n >= 2, 'C14.c: lookup / comparator sites found: %d' % n)
     facts2 = get_facts('K2')
